@@ -40,6 +40,11 @@ def expression_programs(rng):
                           A.Renamed("p", A.Computed(A.Bin("+", A.Bin("*", A.T("a"), A.C(1000)), A.T("b"))))))
     out.append(A.Sequence(A.Renamed("count", A.Default(A.Alias("Byte"), 3)), A.Renamed("items", A.Array(A.T("count"), A.Alias("Byte"))), A.Renamed("n", A.Rebuild(A.Alias("Byte"), A.Func("len", A.T("items")))), A.Renamed("z", A.Bytes(A.T("n")))))
     out.append(A.Sequence(A.Renamed("kind", A.Const(2, A.Alias("Byte"))), A.Renamed("v", A.Padded(A.Bin("+", A.T("kind"), A.C(1)), A.Alias("Byte"))), A.Renamed("w", A.IfThenElse(A.Bin(">", A.T("kind"), A.C(1)), A.Alias("Int16ub"), A.Alias("Byte")))))
+    # constants carried by something other than Bytes(n): the bytes written are the member's encoding of the constant
+    for sub in (A.NullTerminated(A.GreedyBytes), A.Prefixed(A.Alias("Byte"), A.GreedyBytes), A.Padded(5, A.GreedyBytes), A.Aligned(4, A.GreedyBytes),
+                A.NullTerminated(A.GreedyBytes, term=b"\xff", include=False), A.FixedSized(6, A.NullStripped(A.GreedyBytes))):
+        out.append(A.Struct(A.Renamed("sig", A.Const(rng.choice([b"abc", b"MZ", b"\x7fELF"]), sub)), A.Renamed("t", A.Tell), A.Renamed("x", A.Alias("Byte"))))
+    out.append(A.Struct(A.Renamed("sig", A.Const("ab", A.PaddedString(6, "utf8"))), A.Renamed("v", A.Const(300, A.VarInt)), A.Renamed("t", A.Tell)))
     return out
 
 def probe_wrap(prog):
